@@ -107,7 +107,7 @@ func (m *Mutex) TryLock() bool {
 
 // Unlock unlocks m.
 func (m *Mutex) Unlock() {
-	rt, _ := verifsim.Current()
+	rt, t := verifsim.Current()
 	if rt == nil {
 		m.real.Unlock()
 		return
@@ -121,6 +121,10 @@ func (m *Mutex) Unlock() {
 	m.owner = nil
 	m.q.wakeAll("mutex-retry")
 	rt.Mu.Unlock()
+	// releasing a lock is a point at which another goroutine may overtake
+	if t != nil && rt.Classes()&verifsim.ClassLock != 0 {
+		t.Park("unlock")
+	}
 }
 
 // RWMutex replaces sync.RWMutex.
